@@ -1,0 +1,21 @@
+use super::Formatter;
+pub struct FirstLineIndentRemover {}
+
+impl Formatter for FirstLineIndentRemover {
+    /// Return the range of an indent left at the very beginning of the content.
+    ///
+    /// The start of the content is the start of a line, too.
+    fn format(&self, content: &str, byte_pos: usize) -> (usize, usize) {
+        let bytes = content.as_bytes();
+
+        if bytes.get(byte_pos) != Some(&b'\n') {
+            return (byte_pos, byte_pos);
+        }
+
+        if bytes[..byte_pos].iter().all(|b| *b == b' ' || *b == b'\t') {
+            (0, byte_pos)
+        } else {
+            (byte_pos, byte_pos)
+        }
+    }
+}
